@@ -90,6 +90,37 @@ def catalogue_types():
     return list(enumerate(out))
 
 
+# ---------------------------------------------------------------- C03: history entries
+# A SEPARATE list with its own id range: the ids of catalogue_types() do not shift, and no
+# other check sees these entries.  Each is compiled with the typed ops of
+# harness/src/ops_canon.rs (histreps / dequereps) for a HashSet<T, S> / HashMap<K, V, S>
+# with the default hasher and three seeds of a custom BuildHasher, or a VecDeque<T>.
+CANON_BASE = 100000
+
+
+def canon_entries():
+    """[(id, type, constructor)] -- constructor is the Rust expression building the Entry."""
+    string = ('text', 'string')
+    sets = [P('u32'), U8, string, tup(P('i8'), P('bool')), seq('vec', U8), opt(P('i16')), P('i64'), arr(2, P('i8'))]
+    maps = [(U8, U8), (P('i64'), string), (string, seq('vec', P('u16'))), (opt(P('i8')), P('f32')),
+            (tup(P('u16'), string), opt(tup(U8, P('f32')))), (P('u32'), seq('hashset', P('i16')))]
+    deques = [U8, P('u32'), string, opt(P('i16')), tup(U8, seq('vec', U8)), seq('deque', U8)]
+    out = []
+    i = CANON_BASE
+    for e in sets:
+        out.append((i, seq('hashset', e), 'crate::ops_canon::hashset_entry::<%s>' % rust(e)))
+        i += 1
+    for (a, b) in maps:
+        out.append((i, mapk('hashmap', a, b), 'crate::ops_canon::hashmap_entry::<%s, %s>' % (rust(a), rust(b))))
+        i += 1
+    for e in deques:
+        out.append((i, seq('deque', e), 'crate::ops_canon::deque_entry::<%s>' % rust(e)))
+        i += 1
+    for (_, t, _) in out:
+        assert wf(t) and not needs_std(t), t
+    return out
+
+
 def emit_rs(path):
     cat = catalogue_types()
     lines = ['// GENERATED by gen/catalogue.py -- do not edit.',
@@ -107,6 +138,8 @@ def emit_rs(path):
         fn = 'full' if can_de(t) else 'ser_only'
         guard = '    #[cfg(feature = "cfg_std")]\n' if needs_std(t) else ''
         lines.append('%s    v.push(%s::<%s>(%d, %s));' % (guard, fn, r, i, '"' + r.replace('"', '') + '"'))
+    for (i, t, ctor) in canon_entries():
+        lines.append('    v.push(%s(%d, "%s"));' % (ctor, i, rust(t)))
     lines += ['    v', '}', '']
     src = '\n'.join(lines)
     old = open(path).read() if os.path.exists(path) else None
